@@ -39,12 +39,14 @@ CONFIG_FAULTS = {
 COLLECT_FAULTS = {
     "syntax_error": ("task_zsyn.py", "def task_broken(:\n    pass\n"),
     "import_error": ("task_zimp.py", "import nonexistent_module_xyz_verif\n\ndef task_broken():\n    pass\n"),
+    # F28 (fixed in 5ec9965): sys.exit() while a task module is imported is a collection failure like any other
+    "sysexit_import": ("task_zexit.py", "import sys\nsys.exit(3)\n\ndef task_never():\n    pass\n"),
 }
-# SystemExit raised while a task module is imported escapes from build(): known finding (see findings/F28.json)
-SYSEXIT_IMPORT = ("task_zexit.py", "import sys\nsys.exit(3)\n\ndef task_never():\n    pass\n")
+IMPORT_EXC = {"syntax_error": "SyntaxError", "import_error": "ModuleNotFoundError", "sysexit_import": "BASE!SystemExit"}
+SYSEXIT_IMPORT = COLLECT_FAULTS["sysexit_import"]
 DAG_FAULTS = ("bad_k", "bad_m", "bad_after", "cycle", "self_cycle", "duplicate_product")
-TASK_FAULTS = ("early", "late", "omit", "sysexit", "loadfail", "savefail", "state", "hash", "marker", "missing_input")
-FINDING_SYSEXIT_IMPORT = "F28"
+TASK_FAULTS = ("early", "late", "omit", "sysexit", "loadfail", "savefail", "state", "hash", "marker", "missing_input", "deldep")
+FINDING_DELDEP = "F29"
 
 
 # ------------------------------------------------------------------------------------------------
@@ -79,6 +81,13 @@ def apply_task_fault(rng, spec, kind, steps):
             t["deps"] = sorted(t["deps"] + [n])
             t["faulty_dep"] = n
             t["setup_fault"] = "state"
+        elif kind == "deldep":
+            # the body deletes a dependency file of its own (an input no other task declares) after writing its products
+            n = max([int(k) for k in spec["inputs"]] + list(produced) + [d for u in tasks for d in u["deps"]] + [100]) + 1
+            spec["inputs"][str(n)] = rng.randint(1, 50)
+            t["deps"] = sorted(t["deps"] + [n])
+            t["faulty_dep"] = n
+            t["beh"] = "deldep"
         elif kind == "hash":
             t["setup_fault"] = "hash"
         elif kind == "marker":
@@ -92,7 +101,7 @@ def apply_task_fault(rng, spec, kind, steps):
             steps.insert(0, ["delete", rng.choice(ins)])
             return {"kind": kind, "task": t["id"]}
         if t["beh"] != "ok" or t.get("setup_fault"):
-            if t.get("style") == "return" and t["beh"] not in ("ok", "early", "savefail"):
+            if t.get("style") == "return" and t["beh"] not in ("ok", "early", "savefail", "sysexit"):
                 t["style"] = "default"
             return {"kind": kind, "task": t["id"]}
     return None
@@ -208,10 +217,15 @@ def corpus():
     s = copy.deepcopy(base)
     out.append({"tag": "corpus-F14", "spec": s, "steps": [["delete", 100], ["build", {"force": True}, {}]],
                 "faults": [{"kind": "missing_input", "task": 0, "phase": "execute"}]})
-    # known finding: SystemExit while importing a task module
+    # F28 (fixed): SystemExit while importing a task module must give a session with exit code 3
     s = copy.deepcopy(base); s["extra_modules"] = {SYSEXIT_IMPORT[0]: SYSEXIT_IMPORT[1]}
     out.append({"tag": "corpus-sysexit-import", "spec": s, "steps": [["build", {}, {}]],
                 "faults": [{"kind": "sysexit_import", "phase": "collect"}]})
+    # F29: the body deletes its own (private) dependency after writing its product
+    s = copy.deepcopy(base); s["inputs"]["104"] = 9
+    s["tasks"][0].update({"deps": [100, 104], "faulty_dep": 104, "beh": "deldep"})
+    out.append({"tag": "corpus-F29", "spec": s, "steps": [["build", {}, {}], ["build", {}, {}]],
+                "faults": [{"kind": "deldep", "task": 0, "phase": "execute"}]})
     # one of each phase
     for k in sorted(CONFIG_FAULTS):
         out.append({"tag": "corpus-" + k, "spec": copy.deepcopy(base), "steps": [["build", {}, dict(CONFIG_FAULTS[k])]],
@@ -268,7 +282,7 @@ def oracle(case, recs):
     bad = []
     spec = case["spec"]
     byid = {t["id"]: t for t in spec["tasks"]}
-    sysexit_import = any(f["kind"] == "sysexit_import" for f in case["faults"])
+    deldep_tasks = {t["id"] for t in spec["tasks"] if t.get("beh") == "deldep"}
     phase = expected_phase(case)
     for rec in recs:
         if rec["step"][0] != "build":
@@ -276,8 +290,7 @@ def oracle(case, recs):
         obs, cfg, pre, post = rec["obs"], rec["cfg"], rec["pre"], rec["post"]
         # (1) build() returned
         if obs.get("died") or obs.get("raised"):
-            finding = FINDING_SYSEXIT_IMPORT if (sysexit_import and obs.get("raised") == "SystemExit" and phase == "collect") else None
-            bad.append(("returns", f"pytask.build raised {obs.get('raised')} (died={obs.get('died')}) instead of returning a session; faults {case['faults']}", finding))
+            bad.append(("returns", f"pytask.build raised {obs.get('raised')} (died={obs.get('died')}) instead of returning a session; faults {case['faults']}", None))
             continue
         reports = obs["reports"]
         order = [engine.name_to_id(r[0]) for r in reports]
@@ -291,12 +304,22 @@ def oracle(case, recs):
             if e[0] in ("L", "V", "T", "H"):
                 node_faults.setdefault(int(e[1].split(":")[0]), set()).add(e[0])
         failed = [t for t in order if out[t] == "FAIL"]
+        deleted = [int(e[1]) for e in log if e[0] == "D"]
+        # known finding F29 (narrow): a task whose body deleted its own dependency ran to completion and then has NO report
+        # (update_states_in_database raised IntegrityError inside process_report), the loop was aborted right there (every
+        # other task either has a report or never started) and the exit code is 1
+        f29 = [t for t in deleted if t in deldep_tasks and t in ends and t not in out]
+        f29_hit = (len(f29) == 1 and obs["exit"] == 1 and starts and starts[-1] == f29[0]
+                   and all(t in out for t in starts if t != f29[0]))
+        rec["f29"] = bool(f29_hit)
+        f29_tag = FINDING_DELDEP if f29_hit else None
         # (2) exit code per phase
         want = {"config": 2, "collect": 3, "dag": 4}.get(phase)
         if want is None:
             want = 1 if failed else 0
         if obs["exit"] != want:
-            bad.append(("exit", f"exit code {obs['exit']}, expected {want} (first failing phase: {phase}; failed tasks {failed}; faults {case['faults']})", None))
+            bad.append(("exit", f"exit code {obs['exit']}, expected {want} (first failing phase: {phase}; failed tasks {failed}; faults {case['faults']})",
+                        f29_tag if (phase == "execute" and not failed) else None))
         if phase != "execute":
             if reports or log:
                 bad.append(("exit", f"a {phase} fault was injected but tasks were processed: reports {reports}, log {log}", None))
@@ -307,7 +330,7 @@ def oracle(case, recs):
         mf = cfg.get("maxfail")
         stopped = mf is not None and len(failed) >= mf
         if not stopped and set(order) != set(byid):
-            bad.append(("one_report", f"not stopped early, but reports {sorted(order)} != collected tasks {sorted(byid)}", None))
+            bad.append(("one_report", f"not stopped early, but reports {sorted(order)} != collected tasks {sorted(byid)}; log {log}", f29_tag))
         if stopped and failed and order and order[-1] != failed[int(mf) - 1]:
             bad.append(("one_report", f"tasks were processed after failure #{mf}: {order}", None))
         # (4)-(6) truthfulness per task
@@ -347,13 +370,16 @@ def oracle(case, recs):
         for t, spec_t in byid.items():
             if spec_t.get("setup_fault") == "marker" and t in out and out[t] not in ("FAIL", "SKIP"):
                 bad.append(("fail_iff", f"task {t} has a marker whose evaluation raises but is reported {out[t]}", None))
+        for t in deleted:
+            if t in out and out[t] != "FAIL":
+                bad.append(("fail_iff", f"task {t} deleted its own dependency (it is missing afterwards) but is reported {out[t]}", None))
         # dry-run: nothing runs
         if cfg.get("dry") and (starts or any(e[0] in ("L", "V") for e in log)):
             bad.append(("not_run", f"dry-run executed something: {log}", None))
         # a logged body belongs to a reported task
         for t in starts:
             if t not in out:
-                bad.append(("one_report", f"body of task {t} ran but the task has no report", None))
+                bad.append(("one_report", f"body of task {t} ran but the task has no report", f29_tag if t in f29 else None))
     return bad
 
 
@@ -367,15 +393,14 @@ def model_faults(case, step):
     if kw_extra:
         conf = "Exception"
     kinds = {f["kind"] for f in case["faults"]}
-    if kinds & set(COLLECT_FAULTS):
-        ph.append("collect:CollectionError")
-    if "sysexit_import" in kinds:
-        # SystemExit at import time: a failed collection report if the collection protocol catches it, else it escapes
-        import extract_buildtop
-        ph.append("collect:CollectionError" if "SystemExit" in extract_buildtop.collect_file_catches() else "collect:BASE")
+    imp = ""
+    for k in sorted(kinds & set(COLLECT_FAULTS)):
+        # what importing the broken module raises; whether that becomes a failed collection report is decided by the model
+        # from Generated.collectFileCatches
+        imp = IMPORT_EXC[k]
     if kinds & {"bad_k", "bad_m", "bad_after"}:
         ph.append("dag:ValueError")
-    return conf, ",".join(ph)
+    return conf, ",".join(ph), imp
 
 
 def replay_in_model(drv, case, recs):
@@ -391,7 +416,9 @@ def replay_in_model(drv, case, recs):
             drv.ask(f"engine.fs set= del={step[1]}")
             continue
         obs, cfg = rec["obs"], dict(rec["cfg"])
-        conf, ph = model_faults(case, step)
+        conf, ph, imp = model_faults(case, step)
+        if rec.get("f29"):
+            break    # known finding F29: the model has no behaviour "body deletes a dependency" in the unrepaired code
         if "dag:ValueError" in ph:
             # the unparsable expression never selects anything in the model: do not try to evaluate it
             for key in ("k", "m"):
@@ -399,7 +426,7 @@ def replay_in_model(drv, case, recs):
                     cfg.pop(key)
         raised = bool(obs.get("raised") or obs.get("died"))
         picks = [] if raised else engine.derive_picks(obs)[0]
-        ans = drv.ask(f"engine.top {engine.cfg_model_args(cfg, spec, engine.sel_eval)} picks={','.join(map(str, picks))} conf={conf} ph={ph}")
+        ans = drv.ask(f"engine.top {engine.cfg_model_args(cfg, spec, engine.sel_eval)} picks={','.join(map(str, picks))} conf={conf} ph={ph} imp={imp}")
         if not ans.startswith("ok "):
             out.append((i, "model rejects the observed schedule", f"picks={picks}", ans))
             break
@@ -420,6 +447,10 @@ def replay_in_model(drv, case, recs):
         if kv["complete"] != "1":
             out.append((i, "model expects more picks (build loop ended early in the implementation)", impl_reports, ans))
         mfs = dict(e.split(":") for e in kv["fs"].split(",") if e)
+        # files deleted by a "deldep" body are not part of the model's body function: mirrored into the model's world below
+        gone = [t["faulty_dep"] for t in spec["tasks"] if t.get("beh") == "deldep" and ("D", str(t["id"])) in [tuple(e) for e in obs["log"]]]
+        for g_ in gone:
+            mfs.pop(str(g_), None)
         for n in sorted(rec["post"]):
             iv = rec["post"][n]
             if (None if iv is None else str(iv)) != mfs.get(str(n)):
@@ -427,6 +458,8 @@ def replay_in_model(drv, case, recs):
                 break
         if out:
             break
+        if gone:
+            drv.ask(f"engine.fs set= del={','.join(map(str, gone))}")
     return out
 
 
